@@ -78,7 +78,10 @@ def base_scenarios(tier, seed, hints=False):
             for pi in range(np_):
                 for pl in placesA:
                     scs.append(dict(cell=ci, pat=pn, pose=pi, place=pl, decoy='none', atol=0.05, noise=0))
-                for di, d in enumerate(decoysB):
+                extra_decoys = (['lookalike'] if G.pattern(pn)[0][0] in G.LOOKALIKE else []) + (['bent'] if pn in G.COLLINEAR else [])
+                for di, d in enumerate(decoysB + (extra_decoys if q else [])):
+                    if d in ('lookalike', 'bent') and d not in extra_decoys:
+                        continue
                     for j in range(1 if q else 2):
                         scs.append(dict(cell=ci, pat=pn, pose=pi, place=placesB[(pi + di + j) % len(placesB)], decoy=d, atol=0.05, noise=0))
                 if q:
